@@ -14,7 +14,7 @@ def min_base(x, y, eps):
     isInsideEps = np.abs(xmy) < eps
     x = np.where(isInsideEps, x, 0.0)
     y = np.where(isInsideEps, y, 0.0)
-    return np.where(isInsideEps, (-0.25*(x+y-safeEps)**2 + x*y)/safeEps, justMin)
+    return np.where(isInsideEps, 0.5*(x+y) - 0.25*safeEps - 0.25*(x-y)**2/safeEps, justMin)
 
 
 def min(x, y, eps):
